@@ -21,6 +21,7 @@ type CConfig struct {
 	NoFabsimCap bool     `json:"no_fabsim_cap"` // lift the per-run cap on proofs handed to the FabricSim validator (only used by the known-finding replay of the validator-pool wedge)
 	Profile     string   `json:"profile"`
 	Late        bool     `json:"late"`       // every chain has one more service ("sl") that is not registered in the prologue: "register" steps submit it during the run
+	SplitGroups bool     `json:"split_groups"` // one-to-many groups only from services of the first chain, one-to-one traffic only from the others (so that the two reference models never share a transaction id)
 	BigBlocks   bool     `json:"big_blocks"` // few cuts: most blocks are filled to the sequencer's limit
 }
 
@@ -66,6 +67,7 @@ func policies(r *sim.Rand, n int) []Policy {
 		for k := 0; k < r.Intn(3); k++ {
 			p.RestartAt = append(p.RestartAt, r.Range(1, 40))
 		}
+		p.Reader = r.Chance(0.35)
 		ps = append(ps, p)
 	}
 	return ps
@@ -125,6 +127,7 @@ func Generate(prop string, r *sim.Rand, tier string) *sim.Plan {
 		n = r.Range(15, 160)
 	}
 	cfg.BigBlocks = r.Chance(0.35)
+	cfg.SplitGroups = prop == "C06"
 	switch prop {
 	case "C16", "C01", "C02", "C04", "C06":
 		cfg.Late = r.Chance(0.5)
@@ -313,9 +316,13 @@ func (g *gen) step(prop string) []CStep {
 			return []CStep{g.transfer()}
 		}
 	case "C05":
-		switch r.Weighted([]int{3, 10, 10, 6, 1, 1}) {
+		wg := []int{3, 10, 10, 6, 1, 1}
+		if g.cfg.BigBlocks {
+			wg[3] = 2
+		}
+		switch r.Weighted(wg) {
 		case 0:
-			return []CStep{CStep{Op: "gopen", Group: r.Intn(3), A: r.Intn(8), B: r.Intn(8), N: r.Intn(3), T: []int64{0, 0, 2, 3, 5}[r.Intn(5)]}}
+			return []CStep{CStep{Op: "gopen", Group: r.Intn(3), A: r.Intn(8), B: r.Intn(8), N: r.Intn(3), T: []int64{0, 0, 2, 3, 5}[r.Intn(5)], Ghost: r.Chance(0.2)}}
 		case 1:
 			return []CStep{CStep{Op: "gchild", Group: r.Intn(3), N: r.Intn(4)}}
 		case 2:
@@ -410,6 +417,17 @@ func (g *gen) step(prop string) []CStep {
 				}
 			}
 		}
+		if prop == "C06" && r.Chance(0.2) {
+			// "the same holds for a one-to-many group as a whole"
+			switch r.Intn(4) {
+			case 0:
+				return []CStep{CStep{Op: "gopen", Group: r.Intn(3), A: r.Intn(8), B: r.Intn(8), N: r.Intn(3), T: []int64{0, 1, 2, 3, 5}[r.Intn(5)], Ghost: r.Chance(0.2)}}
+			case 1, 2:
+				return []CStep{CStep{Op: "gchild", Group: r.Intn(3), N: r.Intn(4)}}
+			default:
+				return []CStep{CStep{Op: "grecv", Group: r.Intn(3), N: r.Intn(4), Kind: []string{"ok", "ok", "fail", "rollback"}[r.Intn(4)]}}
+			}
+		}
 		wd := []int{10, 3, 5, 1, 1, 1, 2}
 		if g.cfg.BigBlocks {
 			wd[2] = 1
@@ -489,6 +507,14 @@ func SimplifyConfig(raw json.RawMessage) []json.RawMessage {
 			c.Replicas = append([]Policy(nil), cfg.Replicas...)
 			q := p
 			q.RestartAt = p.RestartAt[:len(p.RestartAt)-1]
+			c.Replicas[i] = q
+			out = append(out, sim.MustJSON(c))
+		}
+		if p.Reader {
+			c := cfg
+			c.Replicas = append([]Policy(nil), cfg.Replicas...)
+			q := p
+			q.Reader = false
 			c.Replicas[i] = q
 			out = append(out, sim.MustJSON(c))
 		}
